@@ -10,6 +10,7 @@ Automatic discharges (each is a static argument over the MIR, printed in the evi
 Everything else must match the allow-table: (function, kind, what) -> (max count, reason). Keys never contain line numbers;
 more sites than allowed, or a new key, is a violation.
 """
+from .flow import origins
 from .mir import CallSite, op_const, op_local, op_place, strip_generics
 from .panics import sources_in
 
@@ -99,6 +100,55 @@ def interval(body, op, depth=0):
     return INT_RANGES.get(ty)
 
 
+def _guarded_decrement(body, bb, l):
+    """the block computing `l - 1` is reachable only through the positive edge of a test `l > 0` (or != 0, >= 1) and `l` is not
+    assigned between that test and the subtraction"""
+    from .util import bool_edges, switches_on
+    # the operand may be a fresh copy of the variable
+    var = l
+    ds = body.defs.get(l, [])
+    if len(ds) == 1 and ds[0][0] == "stmt" and ds[0][3]["s"] == "assign" and ds[0][3]["rv"]["k"] == "use" and op_place(ds[0][3]["rv"]["op"]) is not None and not op_place(ds[0][3]["rv"]["op"])["p"]:
+        var = op_local(ds[0][3]["rv"]["op"])
+    def is_var(x):
+        if x == var or x == l:
+            return True
+        d2 = body.defs.get(x, [])
+        return len(d2) == 1 and d2[0][0] == "stmt" and d2[0][3]["rv"]["k"] == "use" and op_local(d2[0][3]["rv"]["op"]) == var and not op_place(d2[0][3]["rv"]["op"])["p"]
+    for i in body.live_blocks():
+        for st in body.blocks[i]["stmts"]:
+            if st["s"] != "assign" or st["rv"]["k"] != "binop" or st["rv"]["op"] not in ("Gt", "Ne", "Ge", "Lt", "Le"):
+                continue
+            a, b = st["rv"]["a"], st["rv"]["b"]
+            la, lb = op_local(a), op_local(b)
+            ca, cb = op_const(a), op_const(b)
+            op = st["rv"]["op"]
+            pos = None
+            if la is not None and is_var(la) and cb is not None:
+                k = cb.get("int")
+                pos = (op == "Gt" and k is not None and k >= 0) or (op == "Ne" and k == 0) or (op == "Ge" and k is not None and k >= 1)
+            elif lb is not None and is_var(lb) and ca is not None:
+                k = ca.get("int")
+                pos = (op == "Lt" and k is not None and k >= 0) or (op == "Ne" and k == 0) or (op == "Le" and k is not None and k >= 1)
+            if not pos:
+                continue
+            for sbb, neg in switches_on(body, st["lhs"]["l"]):
+                e = bool_edges(body, sbb)
+                if e is None:
+                    continue
+                t, f = e
+                if neg:
+                    t, f = f, t
+                if bb in body.reachable(0, removed_edges=[(sbb, t)]):
+                    continue            # reachable without the positive edge
+                # no assignment to the variable on the way from the positive edge to the subtraction
+                fwd = body.reachable([t], removed_nodes=[sbb])
+                back = {x for x in fwd if bb in body.reachable([x], removed_nodes=[sbb])}
+                wr = [d for d in body.defs.get(var, []) if d[1] in back and d[1] != bb]
+                if not wr:
+                    return "A7 `%s - 1` under the dominating positive test of the same unchanged local" % ("_%d" % var)
+    return None
+
+
 def _array_ints(pp):
     import re as _re
     m = _re.findall(r"(-?\d+)_[iu](?:8|16|32|64|128|size)", pp or "")
@@ -123,6 +173,17 @@ def _arith(body, rv, depth):
 
 def auto_discharge(body, src):
     """returns a reason string when the assert source is discharged automatically, else None"""
+    if src.kind == "unwrap" and src.what == "core::option::Option::unwrap":
+        # A6: `a.partial_cmp(&b).unwrap()` where the operands' type is totally ordered (Ord): partial_cmp is Some(cmp)
+        t = body.term(src.bb)
+        if t["t"] == "call" and t.get("args"):
+            sl = origins(body, t["args"][0])
+            pc = [c for c in sl.calls if c.fn == "core::cmp::PartialOrd::partial_cmp"]
+            TOTAL = ("core::time::Duration", "u8", "u16", "u32", "u64", "u128", "usize", "i8", "i16", "i32", "i64", "i128", "isize", "alloc::string::String", "str", "bool", "char",
+                     "std::time::Instant")
+            if len(pc) == 1 and pc[0].gargs and all(g.lstrip("&") in TOTAL for g in pc[0].gargs[:2]):
+                return "A6 partial_cmp on the totally ordered type %s is always Some" % pc[0].gargs[0]
+        return None
     if src.kind != "assert":
         return None
     t = body.term(src.bb)
@@ -139,6 +200,11 @@ def auto_discharge(body, src):
             bits = {"u8": 8, "i8": 8, "u16": 16, "i16": 16, "u32": 32, "i32": 32, "u64": 64, "i64": 64, "usize": 64, "isize": 64, "u128": 128, "i128": 128}.get(ty)
             if sh is not None and bits and 0 <= sh < bits:
                 return "A1 constant shift amount %d < %d bits" % (sh, bits)
+        # A7: `n - 1` under a dominating `n > 0` / `n != 0` / `n >= 1` test of the same unchanged local
+        if kind == "Overflow(Sub)" and len(ops) == 2 and (op_const(ops[1]) or {}).get("int") == 1 and op_local(ops[0]) is not None:
+            r7 = _guarded_decrement(body, src.bb, op_local(ops[0]))
+            if r7:
+                return r7
         # find the checked op statement in the block
         for st in reversed(blk["stmts"]):
             if st["s"] == "assign" and st["rv"]["k"] == "binop" and st["rv"]["op"].endswith("WithOverflow"):
@@ -229,8 +295,6 @@ ALLOW = {
         (1, "CONDITIONAL: only when dominated by the false edge of random_early_renew.is_zero() (checked by C06.R2 guard rule)"),
     ("acmed::endpoint::RateLimit::get_sleep_duration", "assert", "DivisionByZero"):
         (1, "CONDITIONAL: divisor is a limit's number, rejected when 0 by RateLimit::new (checked by the non-zero guard rule, C19.R4)"),
-    ("acmed::endpoint::RateLimit::new::{closure#0}", "unwrap", "core::option::Option::unwrap"):
-        (1, "Duration::partial_cmp is total (Duration: Ord)"),
     ("acmed::identifier::u8_to_nibbles_string", "assert", "BoundsCheck"):
         (2, "u8::to_ne_bytes() is [u8; 1], index 0"),
     ("acmed::config::read_cnf", "unwrap", "core::option::Option::unwrap"):
